@@ -352,6 +352,26 @@ def dump(node):
     return ast.dump(node, annotate_fields=False, include_attributes=False)
 
 
+class _StorageAccess(ast.NodeTransformer):
+    """`self.__dict__['_NAME']` and `self._NAME` denote the same storage slot of a container. Generated code has to use
+    the former (or an equivalent) for names with a leading underscore, because Python mangles `self.__x` inside a class
+    body; the structural comparison treats the two spellings as one and leaves the mangling question to the dynamic check."""
+
+    def visit_Subscript(self, node):
+        self.generic_visit(node)
+        v = node.value
+        if (isinstance(v, ast.Attribute) and v.attr == '__dict__' and isinstance(v.value, ast.Name) and v.value.id == 'self'
+                and isinstance(node.slice, ast.Constant) and isinstance(node.slice.value, str)
+                and node.slice.value.startswith('_')):
+            return ast.Attribute(value=v.value, attr=node.slice.value, ctx=ast.Load())
+        return node
+
+
+def parse_code(code):
+    """ast of generated model code with storage accesses in one canonical spelling."""
+    return _StorageAccess().visit(ast.parse(code))
+
+
 # -- static reference information --------------------------------------------
 
 
@@ -531,10 +551,12 @@ def nontrivial(features):
 PLAIN = ['X', 'Y', 'Z', 'W', 'C', 'G', 'H', 'V']
 TRICKY = ['t', 'e', 'j', 'I', 'S', 'x1', 'X_1', 'a_b_', 'Y_', 'is_open', 'Pin', 'not_X', 'in_', 'orX', 'iff',
           'None_', 'Xor', 'log10', 'np_', 'self_', 'type', 'match', 'case', 'expo', 'maxi', 'Min', 'ifelse',
-          'lambda_', 'T', 'N', 'pi', 'nan', 'NaN', 'inf', 'null', 'none', 'NA', 'true']
+          'lambda_', 'T', 'N', 'pi', 'nan', 'NaN', 'inf', 'null', 'none', 'NA', 'true',
+          # leading underscores: `self.__u` inside a class body would be name-mangled by Python (S6)
+          '_u', '_x1', '__a']
 FUNCTION_LIKE = ['exp', 'max', 'log', 'min', 'abs']   # used as plain variables (never also called in the same program)
-PARAM_NAMES = ['a', 'b', 'alpha_1', 'k', 'theta', 'in_p', 'if_']
-ERROR_NAMES = ['u', 'eps', 'err_1', 'v', 'or_e']
+PARAM_NAMES = ['a', 'b', 'alpha_1', 'k', 'theta', 'in_p', 'if_', '_p']
+ERROR_NAMES = ['u', 'eps', 'err_1', 'v', 'or_e', '_e']
 
 REPLACED_CALLS = [('exp', 1), ('log', 1), ('max', 2), ('min', 2)]
 OTHER_CALLS = [('abs', 1), ('float', 1), ('np.sqrt', 1), ('np.abs', 1), ('np.exp', 1), ('np.log', 1),
